@@ -73,7 +73,7 @@ WHAT = {
                               "the deleted function",
     "unexplained": "recording is not a behaviour of the lifecycle model under any combination of the named deviations",
 }
-NODECL = {"st": [], "ev": [], "tt": [], "svc": [], "resp": "none", "sf": "stack", "alt": False}
+NODECL = {"st": [], "ev": [], "tt": [], "svc": [], "resp": "none", "sf": "stack", "alt": False, "dup": []}
 
 
 def spell(s, alt):
@@ -96,7 +96,9 @@ def parse_kv(s):
 
 def decorators(d):
     out = []
-    svc = [spell(x, d.get("alt")) for x in sorted(d["svc"])]
+    # a declaration is a MULTISET of names: the names in d["dup"] are listed twice (twice in one @service, or two
+    # stacked @service of the same name)
+    svc = [spell(x, d.get("alt")) for x in sorted(list(d["svc"]) + list(d.get("dup", ())))]
     if svc:
         if d["sf"] == "args":
             names = [", ".join('"pyscript.%s"' % s for s in svc)]
@@ -152,7 +154,8 @@ def file_src(c, defs, g0, fail=False, im=False):
 
 
 def norm_decl(d):
-    return d if "alt" in d else dict(d, alt=False)
+    d = d if "alt" in d else dict(d, alt=False)
+    return d if "dup" in d else dict(d, dup=[])
 
 
 def norm_act(a):
@@ -712,6 +715,9 @@ DECL_POOL = [
     {"st": [], "ev": ["e1"], "tt": ["startup"], "svc": ["S3", "s2"], "resp": "none", "sf": "args"},
     {"st": [], "ev": [], "tt": [], "svc": ["s1"], "resp": "none", "sf": "stack", "alt": True},
     {"st": ["b"], "ev": [], "tt": [], "svc": ["S3", "s2"], "resp": "optional", "sf": "stack", "alt": True},
+    # one function declaring a name twice (a declaration is a multiset of names)
+    {"st": [], "ev": [], "tt": [], "svc": ["s1"], "resp": "none", "sf": "args", "dup": ["s1"]},
+    {"st": [], "ev": ["e1"], "tt": [], "svc": ["s1", "s2"], "resp": "optional", "sf": "stack", "dup": ["s2"]},
 ]
 def kw(k, t, v):
     return {"k": k, "t": t, "v": v}
@@ -779,6 +785,8 @@ def gen_random(r, nsteps, ctxs, mask):
                 continue                      # no two live declarations that spell one name differently
             if "dm-service-multi-arg-rejected" in mask and d["sf"] == "args" and len(d["svc"]) > 1:
                 continue
+            if "service-handler-not-repointed" in mask and d.get("dup"):
+                continue                      # (two declarations of one name, be it by one function)
             if via == "run" and (d["tt"] or len(d["svc"]) > 1):
                 continue
             if "dm-service-owner-is-evaluator-name" in mask and via == "run" and d["svc"]:
@@ -1141,13 +1149,24 @@ def execute(ctx, cases, nproc=14):
     return [out[c["id"]] for c in cases]
 
 
+def decls_before(steps, i):
+    """The declarations evaluated by the steps before step i."""
+    out = []
+    for st in steps[:i]:
+        a = st["act"]
+        out += [a["d"]] if "d" in a else []
+        for k in ("defs", "mdefs", "d1", "d2"):
+            out += [df["d"] for df in a.get(k, [])]
+    return out
+
+
 def selftest(ctx, accepted_cases, want=24):
     """Corrupt accepted recordings (drop a run, flip a count, change a result): TLC must reject each."""
     bad = []
     kinds = set()
     r = random.Random(ctx.seed)
     for c in accepted_cases:
-        if len(bad) >= want and kinds >= {"import", "fail", "case", "tick"}:
+        if len(bad) >= want and kinds >= {"import", "fail", "case", "tick", "dup"}:
             break
         if any(s["act"].get("rush") for s in c["steps"]):
             continue
@@ -1198,6 +1217,18 @@ def selftest(ctx, accepted_cases, want=24):
             s = [k for k, v in c2["steps"][idx[0]]["obs"]["has"].items() if v][0]
             c2["steps"][idx[0]]["obs"]["has"][s] = False
             bad.append(c2)
+        # a function that declared a name twice goes away and one registration stays behind
+        idx = [(i, sv) for i in range(1, len(steps)) for sv in SVC
+               if steps[i - 1]["obs"]["cnt"][sv] >= 2 and steps[i]["obs"]["cnt"][sv] == 0
+               and any(sv in df.get("dup", ()) for df in decls_before(steps, i))]
+        if idx:
+            i, sv = idx[0]
+            c2 = copy.deepcopy(slim(c))
+            c2["id"] = "corrupt-dup/" + c["id"]
+            o2, o1 = c2["steps"][i]["obs"], c2["steps"][i - 1]["obs"]
+            o2["cnt"][sv], o2["has"][sv], o2["own"][sv], o2["sr"][sv] = 1, True, o1["own"][sv], o1["sr"][sv]
+            bad.append(c2)
+            kinds.add("dup")
         # the module: an import that leaves the module's functions stopped / the module unloaded
         idx = [i for i, s in enumerate(steps) if s["act"]["a"] in ("import", "reload") and s["act"].get("fresh")
                and s["obs"]["act"]["c4"] > 0]
@@ -1244,8 +1275,9 @@ def selftest(ctx, accepted_cases, want=24):
 
 # ------------------------------------------------------------------------------------------------
 # directed witnesses of the known deviations (re-executed on every run)
-def D(st=(), ev=(), tt=(), svc=(), resp="none", sf="stack", alt=False):
-    return {"st": sorted(st), "ev": sorted(ev), "tt": sorted(tt), "svc": sorted(svc), "resp": resp, "sf": sf, "alt": alt}
+def D(st=(), ev=(), tt=(), svc=(), resp="none", sf="stack", alt=False, dup=()):
+    return {"st": sorted(st), "ev": sorted(ev), "tt": sorted(tt), "svc": sorted(svc), "resp": resp, "sf": sf, "alt": alt,
+            "dup": sorted(dup)}
 
 
 RACE_DECLS = [D(st=["a"], ev=["e1"], svc=["s1"]), D(st=["b"], ev=["e1"], svc=["s1"], resp="optional"),
@@ -1359,7 +1391,7 @@ def gen_tick(r):
     return {"started": True, "acts": acts, "victims": [{"step": len(acts) - 5, "run": victim_run(o, g1)}]}
 
 
-def witnesses(race=True):
+def witnesses(race=True, tick_all=True):
     s1 = D(svc=["s1"])
     multi = D(st=["a", "a.old", "b", "c"])
     ev = D(ev=["e1"])
@@ -1529,8 +1561,29 @@ def witnesses(race=True):
             {"a": "push", "c": "c2", "d": D(ev=["e1"], st=["c"]), "where": "D", "via": tv, "g": 2, "tick": True}, fire, fire],
             [(2, victim_run(fire, 1))])
     cases = []
-    for name, (acts, victims) in tick.items() if race else []:
-        w.append(("tick-" + name, both, acts, True, [{"step": i, "run": v} for i, v in victims]))
+    for name, (acts, victims) in tick.items():
+        if tick_all or any(a["a"] == "call" for a in acts):        # (C12: the ones that call a service)
+            w.append(("tick-" + name, both, acts, True, [{"step": i, "run": v} for i, v in victims]))
+    # ONE function declaring a service name twice (a declaration is a multiset of names): @service("a.b", "a.b") /
+    # two stacked @service("a.b"): every entry is registered and counted, all of them go with the function
+    dupa = D(svc=["s1"], sf="args", dup=["s1"])
+    dups = D(svc=["s1", "s2"], ev=["e1"], resp="optional", dup=["s2"])
+    one = D(svc=["s1"])
+    calls2 = {"a": "call", "s": "s2", "data": "p=1", "rr": True}
+    w.append(("dup-del", both, [
+        {"a": "define", "c": "c1", "n": "f", "d": dupa, "g": 1}, calls1, {"a": "del", "c": "c1", "n": "f"}, calls1,
+        {"a": "define", "c": "c2", "n": "g", "d": one, "g": 2}, calls1, {"a": "unload"}]))
+    w.append(("dup-redef", both, [
+        {"a": "define", "c": "c1", "n": "f", "d": dups, "g": 1}, calls2, {"a": "define", "c": "c1", "n": "f", "d": e1, "g": 2},
+        calls2, calls1, {"a": "define", "c": "c3", "n": "h", "d": dups, "g": 3}, calls2, {"a": "close", "c": "c3"}, calls2]))
+    w.append(("dup-reload", both, [
+        {"a": "reload", "c": "c1", "defs": [{"n": "f", "d": dupa}, {"n": "g", "d": D(svc=["s2"], dup=["s2"])}], "g": 1}, calls1,
+        {"a": "reload", "c": "c1", "defs": [{"n": "f", "d": one}], "g": 3}, calls1, {"a": "call", "s": "s2", "data": "-", "rr": False},
+        {"a": "reload", "c": "c1", "defs": [], "g": 4}, calls1]))
+    w.append(("dup-two", both, [
+        {"a": "define", "c": "c1", "n": "f", "d": dupa, "g": 1}, {"a": "define", "c": "c1", "n": "g", "d": one, "g": 2}, calls1,
+        {"a": "del", "c": "c1", "n": "g"}, calls1, {"a": "push", "c": "c1", "d": dupa, "where": "D", "via": "exec", "g": 3}, calls1,
+        {"a": "del", "c": "c1", "n": "f"}, calls1, {"a": "clear", "c": "c1", "where": "D"}, calls1]))
     for name, subs, acts, *opt in w:
         for sub in subs:
             cases.append({"id": "w/%s/%s" % (name, sub), "sub": sub, "started": opt[0] if opt else True,
@@ -1628,7 +1681,8 @@ def nontrivial(c):
     return ran and len(tabs) > 1
 
 
-SELFTEST_FIRST = ["w/tick-del-fire-run/dm", "w/tick-del-call-exec/dm", "w/tick-clearD-fire-run/legacy", "w/out/dm", "w/modimp-run-c1/dm", "w/loadimp/legacy", "w/failload/legacy", "w/failimport/dm", "w/case-redef/dm",
+SELFTEST_FIRST = ["w/tick-del-call-run/dm", "w/tick-del-call-exec/legacy", "w/tick-clearD-fire-run/legacy", "w/dup-del/legacy", "w/dup-two/dm",
+                  "w/out/dm", "w/modimp-run-c1/dm", "w/loadimp/legacy", "w/failload/legacy", "w/failimport/dm", "w/case-redef/dm",
                   "w/case-move/legacy", "w/failboot/dm"]
 
 
@@ -1699,7 +1753,7 @@ def main_common(ctx, prop, mc_jobs, sim_consts, pool, sizes):
     # (T) random longer sequences
     rnd_u = [gen_random_case(ctx.seed * 100000 + i, sizes["steps"], allctx, set()) for i in range(sizes["rnd"])]
     rnd_m = [gen_random_case(ctx.seed * 100000 + 50000 + i, sizes["steps"], allctx, set(ALL_FLAGS)) for i in range(sizes["rnd"])]
-    cases = witnesses(race=sizes.get("race", 0) > 0)
+    cases = witnesses(race=sizes.get("race", 0) > 0, tick_all=sizes.get("tick", 0) > 0)
     cases += to_cases([gen_race(random.Random(ctx.seed * 1000 + 77 + i)) for i in range(sizes.get("race", 0))], allctx, "X/u")
     cases += to_cases([gen_tick(random.Random(ctx.seed * 1000 + 177 + i)) for i in range(sizes.get("tick", 0))], allctx, "X/t")
     cases += to_cases(beh_u, allctx, "R/u")
@@ -1714,12 +1768,12 @@ def main_common(ctx, prop, mc_jobs, sim_consts, pool, sizes):
     byid = {c["id"]: c for c in done}
     accepted, rejections = validate(
         ctx, done, "main",
-        beside=lambda acc: selftest(ctx, sorted([byid[i] for i in acc if len(byid[i]["steps"]) >= 4], key=selftest_rank)[:17]))
+        beside=lambda acc: selftest(ctx, sorted([byid[i] for i in acc if len(byid[i]["steps"]) >= 4], key=selftest_rank)[:19]))
     acc_cases = [byid[i] for i in accepted]
     # (under a code mutant the directed recordings may all be rejected: those are reported, not a machinery failure)
-    if not [r for r in rejections if not r["flags"]] and ctx.cov.get("selftest_corruption_kinds_of_round3") != ["case", "fail", "import", "tick"]:
+    if not [r for r in rejections if not r["flags"]] and ctx.cov.get("selftest_corruption_kinds_of_round3") != ["case", "dup", "fail", "import", "tick"]:
         raise MachineryFailure("selftest: no accepted recording with a module import / failed load / upper-case service name / "
-                               "occurrence right behind a deleting statement was corrupted (have %s)" % ctx.cov.get("selftest_corruption_kinds_of_round3"))
+                               "occurrence right behind a deleting statement / name declared twice by one function was corrupted (have %s)" % ctx.cov.get("selftest_corruption_kinds_of_round3"))
     ctx.cov["phase_wall_s"] = {"model_checking_and_simulation": round(t_gen - ctx.t0, 1), "execution_on_real_code": round(t_exec - t_gen, 1),
                                "trace_validation": round(time.time() - t_exec, 1)}
     # coverage
